@@ -5,7 +5,7 @@ from .. import lean, proto, gen, util
 
 REQUIRED = ['Petl.C09.' + n for n in (
     'groups_flatten groups_keys_strictly_ascending group_is_filter group_counts_sum_nrows group_sums_sum_total '
-    'selectfirst_is_first_of_key selectmin_is_min_of_group aggregate_applies_to_group').split()]
+    'selectfirst_is_first_of_key selectmin_is_min_of_group aggregate_applies_to_group groupcountdistinct_counts').split()]
 
 AGGS = {'len': len, 'list': list, 'sum': sum, 'min': min, 'max': max}
 
@@ -28,6 +28,16 @@ def ref_groups(tbl, key):
             groups.append((k, [tuple(r)]))
     groups.sort(key=lambda g: g[0])
     return idx, [(g[0].inner, g[1]) for g in groups]
+
+
+def canon(c):
+    """which of several equal key values (True / 1 / 1.0 / Decimal('1')) stands for a group is not specified by the property"""
+    from decimal import Decimal as _D
+    if isinstance(c, _D) and c == c and float(c) == c:
+        c = float(c)
+    if isinstance(c, (bool, float)) and c == c and c not in (float('inf'), float('-inf')) and int(c) == c:
+        c = int(c)
+    return tuple(canon(x) for x in c) if isinstance(c, tuple) else c
 
 
 def keycells(idx, k):
@@ -227,19 +237,11 @@ def run(ctx):
                         seen.append(v)
                 out.append(tuple(canon(c) for c in keycells(idx, k)) + (len(seen),))
             return out
-        def canon(c):
-            # which of several equal key values (True / 1 / 1.0 / Decimal('1')) stands for the group is not specified
-            from decimal import Decimal as _D
-            if isinstance(c, _D) and c == c and float(c) == c:
-                c = float(c)
-            if isinstance(c, (bool, float)) and c == c and c not in (float('inf'), float('-inf')) and int(c) == c:
-                c = int(c)
-            return tuple(canon(x) for x in c) if isinstance(c, tuple) else c
         def gthunk(T=T, key=key, gv=gv):
             # data rows (the header names positional keys by position)
-            return [tuple(canon(c) for c in r) for r in list(etl.groupcountdistinctvalues(T, key, gv))[1:]]
+            return list(etl.groupcountdistinctvalues(T, key, gv))[1:]
         if all(len(r) == len(hdr) for r in T[1:]):
-            jobs.append(('groupcountdistinctvalues', None, gthunk, goracle, dict(base, value=repr(gv)), nt))
+            jobs.append(('groupcountdistinctvalues', 'gcdv %s %s %s %s' % (kt, util.enc_key(gv), '-', ttok), gthunk, goracle, dict(base, value=repr(gv)), nt))
     # conservation laws on valuecounts / valuecounter (Counter oracle)
     lines = [j[1] for j in jobs if j[1] is not None]
     model = iter(lean.run_driver(lines))
@@ -269,6 +271,9 @@ def run(ctx):
             ctx.exact(real == spec, c2)
         if spec is not None and real == spec:
             continue
+        if name == 'groupcountdistinctvalues':
+            # the reference grouping does not say which of several equal key values stands for a group
+            real = util.run_show(lambda: [tuple(canon(c) for c in r) for r in thunk()])
         # reference grouping decides
         ref = None
         if oracle is not None:
